@@ -94,7 +94,7 @@ def run_case(case):
         m = pj.api("model")
         if "shown" not in m:
             return {"status": "skip", "counters": {"model_run_failed": 1}, "detail": m}
-        if m["n_unfiltered_tmp_prs"] == 0:
+        if m["truth_tmp_prs"] == 0:
             return {"status": "skip", "counters": {"no_tmp_prs_error_after_all": 1}}
         sql = scen["sql"]
         st0 = os.stat(pj.path)
@@ -127,7 +127,7 @@ def run_case(case):
             "failures": fails,
             "counters": counters,
             "key": short_hash(repr(scen)) if fixable_present else None,
-            "sample": {"sql": sql, "config": scen["config"]["core"], "tmp_prs_errors": m["n_unfiltered_tmp_prs"]} if case["idx"] % 25 == 0 else None,
+            "sample": {"sql": sql, "config": scen["config"]["core"], "tmp_prs_errors": m["truth_tmp_prs"]} if case["idx"] % 25 == 0 else None,
         }
     finally:
         pj.close()
